@@ -21,16 +21,28 @@ Print Assumptions C13_one_close_frame.
 
 (* ---- no data frame after the close frame --------------------------------------------------------------
    PARTIAL.  The model has no write-side flow control: `protocol._drain_helper()` never suspends, so
-   WebSocketWriter.close() writes the close frame and sets `_closing` in one step.  Under that assumption the
-   statement holds in every reachable state of both sides.  Without it the implementation violates it: while the
-   transport has paused writing, close() is suspended inside send_frame's drain AFTER the close frame is on the
-   wire and BEFORE `finally: self._closing = True`, and a concurrent send_str() writes a data frame behind it
-   (known finding C13-close-under-write-backpressure, corpus/C13/server_data_after_close_under_backpressure.json;
-   found by the harness's implementation-only back-pressure suite). *)
+   WebSocketWriter.close() sets `_closing` and writes the close frame in one step; under that assumption the
+   statement holds in every reachable state of both sides.  What is missing for the full statement: a model in
+   which send_frame can be suspended in its drain after the write (a pause/resume event and a suspension point in
+   every sender), with Inv_wire re-proved over it.  The ingredient that makes the argument go through there is
+   proved below for ANY state (C13_data_refused_once_writer_closing + C13_writer_close_sets_flag_first): since fix
+   4859fa3 the flag is set before the close frame is written, so at every point where close() can be suspended the
+   writer already refuses data frames.  (Before the fix the flag was set in a `finally` after the drain and the
+   implementation wrote `C1000, T` under back-pressure: corpus/C13/server_data_after_close_under_backpressure.json,
+   now a passing regression case of the implementation-only back-pressure suite.) *)
 Theorem C13_no_data_after_close_partial : forall c s, reach c s ->
   forall l1 code l2, sent s = l1 ++ FClose code :: l2 -> ~ In FText l2.
 Proof. exact (fun c s H => ok_sent_spec _ (no_data_after_close c s H)). Qed.
 Print Assumptions C13_no_data_after_close_partial.
+
+Theorem C13_data_refused_once_writer_closing : forall s, w_closing s = true -> send_frame s FText = (s, true).
+Proof. exact data_refused_when_closing. Qed.
+Print Assumptions C13_data_refused_once_writer_closing.
+
+Theorem C13_writer_close_sets_flag_first : forall s code,
+  writer_close s code = send_frame (set_w_closing s true) (FClose code).
+Proof. exact writer_close_flag_first. Qed.
+Print Assumptions C13_writer_close_sets_flag_first.
 
 (* ---- the transport is closed once the session is closed --------------------------------------------
    Full statement: forall c s, reach c s -> finished c s -> tr_closing s = true.
@@ -128,25 +140,34 @@ Theorem C13_close_returns_after_expiry : forall c s t k fr,
 Proof. exact expired_wake_ends_close. Qed.
 Print Assumptions C13_close_returns_after_expiry.
 
-(* (5) server: a wake-up by a message that is not the peer's close frame ends close() or re-suspends it under
-   the SAME deadline, so the whole wait is bounded by one close timeout. *)
+(* (5) a wake-up by a message that is not the peer's close frame ends close() or re-suspends it under the SAME
+   deadline, so the whole wait is bounded by one close timeout — on the server and (since fix 7b896a4, one
+   `async_timeout.timeout(ws_close)` around the whole read loop) on the client. *)
 Theorem C13_close_deadline_kept_server : forall c s t k d,
   c_side c = Server ->
   t_pc (tasks s t) = PCloseRead k -> t_fut (tasks s t) = Some FOk -> t_tmo (tasks s t) = Some d ->
   t_expired (tasks s t) = false -> t_cancel (tasks s t) = false ->
   let s' := run_wake c s t in
   (exists r, t_pc (tasks s' t) = PDone r) \/ (t_pc (tasks s' t) = PCloseRead k /\ t_tmo (tasks s' t) = Some d).
-Proof. exact server_wake_keeps_deadline. Qed.
+Proof. exact (fun c s t k d _ => wake_keeps_deadline c s t k d). Qed.
 Print Assumptions C13_close_deadline_kept_server.
 
-(* (5) is refuted for the client: the deadline is re-armed for every message read while waiting
-   (corpus/C13/client_close_timeout_restarts.json): close() called at time 0 with timeout 9 is still blocked at
-   time 16, its deadline now 17.  (1)-(4) still hold for the client: each single wait is bounded. *)
-Example C13_close_deadline_extended_client :
+Theorem C13_close_deadline_kept_client : forall c s t k d,
+  c_side c = Client ->
+  t_pc (tasks s t) = PCloseRead k -> t_fut (tasks s t) = Some FOk -> t_tmo (tasks s t) = Some d ->
+  t_expired (tasks s t) = false -> t_cancel (tasks s t) = false ->
+  let s' := run_wake c s t in
+  (exists r, t_pc (tasks s' t) = PDone r) \/ (t_pc (tasks s' t) = PCloseRead k /\ t_tmo (tasks s' t) = Some d).
+Proof. exact (fun c s t k d _ => wake_keeps_deadline c s t k d). Qed.
+Print Assumptions C13_close_deadline_kept_client.
+
+(* the former counterexample history (corpus/C13/client_close_timeout_restarts.json): close() at time 0 with timeout
+   9, a text frame at time 8; by time 16 close() has returned with 1006 on both sides *)
+Example C13_close_deadline_kept_client_example :
   exists s, reach cfgC s /\ now s = now (init cfgC) + 16 /\ c_close_tmo cfgC = 9 /\
-            t_pc (tasks s 0) = PCloseRead KTop /\ t_tmo (tasks s 0) = Some (now (init cfgC) + 17) /\ ready s = [].
-Proof. exact witness_client_deadline_extended. Qed.
-Print Assumptions C13_close_deadline_extended_client.
+            t_pc (tasks s 0) = PDone (RBool true) /\ close_code s = Some ws_close_abnormal /\ tr_closing s = true.
+Proof. exact witness_client_deadline_kept. Qed.
+Print Assumptions C13_close_deadline_kept_client_example.
 
 Example C13_close_deadline_kept_server_example :
   exists s, reach cfgS s /\ now s = now (init cfgS) + 16 /\
